@@ -5,8 +5,9 @@ ordered sublists of subdomains / interfaces, nd, and checks the laws on the mode
 (TLC compares every real matrix with the reference and checks the laws on the real matrices).
 
 Binding: real md-grids (a 2-d host with two crossing fractures and their intersection point, a 3-d host with one
-fracture, in the thorough tier also a 2-d host with three fractures and a simplex grid with a coarsened, hence
-non-matching, mortar grid), described to TLC by their sizes, boundary faces and per-interface MortarGrid projections;
+fracture, a 2-d host whose 1-d mortar side grids were refined by 2 and by 3 (non-matching: integrating maps keep unit
+weights, averaging ones do not), in the thorough tier also a 2-d host with three fractures, one with a coarsened mortar
+grid and one with two separate fractures and refined mortars), described to TLC by their sizes, boundary faces and per-interface MortarGrid projections;
 for every enumerated input the real pp.ad.SubdomainProjections / MortarProjections / BoundaryProjection are built
 and their matrices handed to TLC entry by entry (exact rationals)."""
 from __future__ import annotations
@@ -42,6 +43,18 @@ def build(name):
         f1, f2 = np.array([[0, 2], [1, 1]]), np.array([[1, 1], [0, 2]])
         f3 = np.array([[2, 3], [2, 2]])
         mdg = pp.meshing.cart_grid([f1, f2, f3], np.array([3, 3]))
+    elif name in ("refined2", "refined2x"):
+        # the 1-d mortar side grids are refined (every mortar cell split in 2 on one interface, in 3 on the other), the
+        # subdomain grids stay: integrating maps mortar -> neighbour keep unit weights, averaging ones get 1/2, 1/3
+        if name == "refined2":  # host with two crossing fractures
+            f1, f2 = np.array([[0, 2], [1, 1]]), np.array([[1, 1], [0, 2]])
+            mdg = pp.meshing.cart_grid([f1, f2], np.array([2, 2]))
+        else:  # host with two separate fractures
+            f1, f2 = np.array([[0, 2], [1, 1]]), np.array([[1, 3], [2, 2]])
+            mdg = pp.meshing.cart_grid([f1, f2], np.array([3, 3]))
+        for intf, ratio in zip(list(mdg.interfaces(dim=1)), (2, 3)):
+            new = {side: pp.refinement.refine_grid_1d(g, ratio=ratio) for side, g in intf.side_grids.items()}
+            mdg.replace_subdomains_and_interfaces(interface_map={intf: new})
     elif name == "nonmatch2":  # 2-d host with one fracture whose mortar grid is coarsened: non-matching interface
         f1 = np.array([[0, 4], [1, 1]])
         mdg = pp.meshing.cart_grid([f1], np.array([4, 2]))
@@ -133,7 +146,11 @@ def _execute(world, inp):
     if inp["kind"] == "mortar":
         il = [intfs[i - 1] for i in inp["second"]]
         mp = pp.ad.MortarProjections(mdg, lst, il, nd)
-        out = {k: entries(getattr(mp, fn)()) for k, fn in WHICH.items()}
+        # all eight projections from the one object, the int or the avg variant of each pair first
+        keys = list(WHICH)
+        if inp.get("order") == "avg_first":
+            keys = [k for pair in zip(keys[1::2], keys[0::2]) for k in pair]
+        out = {k: entries(getattr(mp, WHICH[k])()) for k in keys}
         out["sign"] = entries(mp.sign_of_mortar_sides())
         return out
     bp = pp.ad.BoundaryProjection(mdg, lst, nd)
@@ -154,8 +171,9 @@ def _world(ctx, names):
 def _names(ctx):
     """md-grids and, per md-grid, the bound on Len(list) + Len(second) of the enumeration and the nd values."""
     if ctx.quick:
-        return ["cross2", "frac3"], [4, 4], [{1, 2}, {1, 3}]
-    return ["cross2", "frac3", "three2", "nonmatch2"], [5, 4, 4, 4], [{1, 2, 3}] * 4
+        return ["cross2", "frac3", "refined2"], [4, 4, 3], [{1, 2}, {1, 3}, {1, 2}]
+    return (["cross2", "frac3", "three2", "nonmatch2", "refined2", "refined2x"], [5, 4, 4, 4, 4, 4],
+            [{1, 2, 3}] * 4 + [{1, 2}, {1, 3}])
 
 
 def _judge(ctx, cases, descs, names, prefix=""):
@@ -163,7 +181,7 @@ def _judge(ctx, cases, descs, names, prefix=""):
         c = cases[v["case"] - 1]
         i = c["in"]
         ctx.violation(v["clause"], dict(inp=i, mdg=names[i["m"] - 1], out=c["out"]),
-                      f"{prefix}mdg={names[i['m'] - 1]} kind={i['kind']} nd={i['nd']} list={i['list']} second={i['second']} "
+                      f"{prefix}mdg={names[i['m'] - 1]} kind={i['kind']} nd={i['nd']} list={i['list']} second={i['second']} order={i.get('order')} "
                       f"error={c['out']['error']!r} shapes={ {k: x['shape'] for k, x in c['out'].items() if k != 'error'} }")
 
 
@@ -181,14 +199,14 @@ def run(ctx):
     m, cf = tlc.gen(ctx.work / "enum", "MC_GridProjectionsFamily", "GridProjectionsFamily", consts,
                     invariants=["Emit", "LawRestrictProlong", "LawPermutation", "LawBlocks", "LawBoundary", "LawMortarShape"])
     en = ctx.tlc(m, cf, allow_violation=False, workers=8)
-    inputs = sorted(en.records, key=lambda r: (r["m"], r["kind"], r["nd"], r["list"], r["second"]))
+    inputs = sorted(en.records, key=lambda r: (r["m"], r["kind"], r["nd"], r["list"], r["second"], r["order"]))
     cases = [{"in": r, "out": execute(world, r)} for r in inputs]
     _judge(ctx, cases, descs, names)
     n = dict(sub=0, mortar=0, bnd=0)
     for c in cases:
         i = c["in"]
         n[i["kind"]] += 1
-        ctx.case(key=(i["m"], i["kind"], i["nd"], str(i["list"]), str(i["second"])),
+        ctx.case(key=(i["m"], i["kind"], i["nd"], str(i["list"]), str(i["second"]), i["order"]),
                  nontrivial=len(i["list"]) + len(i["second"]) >= 2 or i["nd"] > 1)
     for kind in ("sub", "mortar", "bnd"):
         c = next(c for c in reversed(cases) if c["in"]["kind"] == kind and c["in"]["m"] == 1 and len(c["in"]["list"]) >= 2)
